@@ -103,7 +103,7 @@ def gen_replay(rng):
         return {"op": "run", "file": rng.randrange(len(files)), "method": rng.choice(["collect_paths", "next_paths_collect", "collect_by_line"]), "tick_s": rng.choice([1, 2, 61, 3600, 43200]), "inst": rng.choice(["new", "reused", "reused"])}
 
     def replay_op():
-        return {"op": "replay", "method": rng.choice(["collect_paths", "next_paths_collect", "collect_by_line"]), "inst": rng.choice(["new", "reused", "reused"]), "tick_s": rng.choice([1, 2, 5])}
+        return {"op": "replay", "method": rng.choice(["collect_paths", "next_paths_collect", "collect_by_line"]), "inst": rng.choice(["new", "reused", "reused"]), "tick_s": rng.choice([0, 1, 2, 5])}
 
     opsl = [run_op() for _ in range(rng.randint(1, 3))] + [replay_op()]
     if rng.random() < 0.5:
